@@ -138,6 +138,17 @@ func suiteHistory(c *ctx) {
 			{tbl("t", col("id", "int(11)", oNotNull), col("uid", "int(11)"))},
 		},
 	}
+	w = append(w,
+		[][]Stmt{ // C04-a: a column carrying two single-column indexes is dropped
+			{tbl("t", ints("a", "b")...), idx("t", "i1", false, "b"), idx("t", "i2", true, "b")},
+			{tbl("t", ints("a")...)},
+			{tbl("t", ints("a", "c")...)},
+		},
+		[][]Stmt{ // C04-b / C04-c: an index keeps its name, moves to another column, and its old column is dropped
+			{tbl("account", ints("id", "name", "email")...)},
+			{tbl("account", ints("id", "name", "email", "login")...), idx("account", "idx_lookup", true, "login")},
+			{tbl("account", ints("id", "name", "email")...), idx("account", "idx_lookup", true, "email")},
+		})
 	for i, revs := range w {
 		runHistory(c, fmt.Sprintf("w-history-%d", i), my, revs, false, root)
 	}
